@@ -435,7 +435,9 @@ func (h *apiHandler) serveEventStream(start time.Time, req *http.Request, res ht
 
 			// Send incoming messages over the stream
 			streamWasClosed := make(chan struct{}, 1)
+			writerIsDone := make(chan struct{})
 			go func() {
+				defer close(writerIsDone)
 				for {
 					var msg []byte
 					select {
@@ -455,6 +457,10 @@ func (h *apiHandler) serveEventStream(start time.Time, req *http.Request, res ht
 					flusher.Flush()
 				}
 			}()
+
+			// The response must not be used after this function returns, so always
+			// wait for the goroutine above to finish before returning
+			defer func() { <-writerIsDone }()
 
 			// When the stream is closed (either by them or by us), remove it
 			// from the array and end the response body to clean up resources
